@@ -450,6 +450,9 @@ ENTRIES = [
     ("repr::logical_expr::LogicalExpr::from_dimacs#clause", dict(name="from_dimacs", self_adt="repr::logical_expr::LogicalExpr"), ("item-lits", None), "a DIMACS text with an empty clause"),
     ("repr::logical_expr::LogicalExpr::from_dimacs#formula", dict(name="from_dimacs", self_adt="repr::logical_expr::LogicalExpr"), ("parsed-list", None), "a DIMACS text without clauses"),
     ("repr::cnf::Cnf::from_dimacs#clause", dict(name="from_dimacs", self_adt="repr::cnf::Cnf"), ("item-lits", None), "a DIMACS text with an empty clause"),
+    ("repr::cnf::CnfHasher::new", dict(name="new", self_adt="repr::cnf::CnfHasher"), ("param", 1), "an empty list of clauses"),
+    ("repr::unit_prop::UnitPropagate::new#clause", dict(name="new", self_adt="repr::unit_prop::UnitPropagate"), ("item", "clauses"), "a CNF with an empty clause"),
+    ("repr::unit_prop::SATSolver::new", dict(name="new", self_adt="repr::unit_prop::SATSolver"), ("list", "clauses"), "a CNF without clauses (the empty formula)"),
 ]
 
 
@@ -476,6 +479,8 @@ def assumption(prog, fn, kind):
         return sorted(out, key=repr)
     if what == "item":
         return sorted(clause_items(fn, lambda s: is_field(arg)(s) and strip(s[1] if s[0] == "field" else s[2][0])[0] == "param"), key=repr)
+    if what == "item-param":
+        return sorted(clause_items(fn, lambda s_: strip(s_) == ("param", arg)), key=repr)
     if what == "item-lits":
         # the literal list of a parsed clause: lits(item) for the items of the loop over the parser's clause list
         out = set()
